@@ -150,7 +150,9 @@ type execOut struct {
 }
 
 func execute(f *bexpr.Filter, data interface{}) (o execOut) {
+	eng.CallBegin(f, data)
 	defer func() {
+		eng.CallEnd()
 		if r := recover(); r != nil {
 			o = execOut{panicked: fmt.Sprint(r)}
 		}
